@@ -9,6 +9,7 @@ package fzf
 import (
 	"fmt"
 	"sort"
+	"strings"
 	"time"
 
 	"github.com/junegunn/fzf/src/util"
@@ -330,6 +331,9 @@ type purityPlan struct {
 	Order   uint64   `json:"order"`
 	Poison  []int    `json:"poison"`
 	LongLen int      `json:"long_len"`
+	// Ws > 0: every Ws-th line loses its id suffix and begins / ends with white space other than blank and tab
+	// (the CR of a CRLF file, form feed, vertical tab, NEL, no-break space), and the pool gets anchored terms
+	Ws int `json:"ws,omitempty"`
 }
 
 func runPurity(c *runCtx) {
@@ -344,6 +348,13 @@ func runPurity(c *runCtx) {
 		for i := 0; i < 8; i++ {
 			plan.Poison = append(plan.Poison, r.Intn(4))
 		}
+		if r.Chance(1, 3) {
+			plan.Ws = r.Range(1, 4)
+			for k := 0; k < 3; k++ {
+				x := string(lineAlphabet[r.Intn(len(lineAlphabet))])
+				plan.Queries = append(plan.Queries, pick(r, "^"+x, x+"$", "^"+x+"$", "^"+x+" "+x+"$", "!"+x+"$", "!^"+x))
+			}
+		}
 		if r.Chance(1, 4) {
 			plan.LongLen = r.Range(200, 3000)
 			if r.Chance(1, 4) {
@@ -355,6 +366,29 @@ func runPurity(c *runCtx) {
 	c.plan = plan
 	plan.Lines.N = clampInt(plan.Lines.N, 0, 5000)
 	lines := genLines(plan.Lines)
+	if plan.Ws > 0 {
+		wr := zsim.NewRng(plan.Order ^ 0x5753)
+		ws := []string{"\r", "\f", "\v", "\r ", " \f", "\t\r", "\u0085", "\u00a0", "\n"}
+		for i := range lines {
+			if i%plan.Ws != 0 {
+				continue
+			}
+			l := lines[i]
+			if k := strings.LastIndex(l, " #"); k >= 0 {
+				l = l[:k]
+			}
+			switch wr.Intn(3) {
+			case 0:
+				l = ws[wr.Intn(len(ws))] + l
+			case 1:
+				l = l + ws[wr.Intn(len(ws))]
+			default:
+				l = ws[wr.Intn(len(ws))] + l + ws[wr.Intn(len(ws))]
+			}
+			lines[i] = l
+		}
+		c.count("probe.unusual_white_space", 1)
+	}
 	if plan.LongLen > 0 {
 		// a few long lines so that N*M approaches / exceeds the slab (V2 -> V1 fallback)
 		lr := zsim.NewRng(plan.Order)
